@@ -64,7 +64,7 @@ Section box.
     wfv D value = true -> wfv D (box_go t inner value) = true.
   Proof.
     induction t; intros inner value H; simpl; try exact H.
-    destruct inner; try (apply IHt; simpl; exact H); try exact H.
+    destruct inner; try (apply IHt; simpl; exact H); try exact H; reflexivity.
   Qed.
 
   Lemma box_go_shape : forall t k inner,
@@ -72,7 +72,7 @@ Section box.
   Proof.
     induction t; intros k inner; simpl; try (rewrite shape_wrapn; reflexivity).
     destruct inner; try (rewrite wrap_opt; exact (IHt (S k) _)).
-    - rewrite shape_wrapn. reflexivity.
+    - rewrite wrap_opt. reflexivity.
     - rewrite wrapn_some, wrap_opt. exact (IHt (S k) inner).
   Qed.
 
@@ -87,7 +87,7 @@ Section box.
     { intro Hi. rewrite wrap_opt. apply (IHt (S k) inner).
       rewrite <- H. symmetry. apply subtype_nonopt_opt; [apply dyn_nonopt; exact Hi | apply dyn_not_never]. }
     destruct inner; try (apply Hn; reflexivity).
-    - (* nil *) rewrite dyn_wrapn, subtype_wrap. exact H.
+    - (* nil *) rewrite wrap_opt. simpl. rewrite subtype_opt_opt. apply subtype_never.
     - (* some *) rewrite wrapn_some, wrap_opt. apply (IHt (S k) inner).
       simpl in H. rewrite subtype_opt_opt in H. exact H.
   Qed.
